@@ -93,7 +93,7 @@ func runObligations(results []*FuncResult, dir string, timeoutS, seed int, all b
 			q := j.vc.query(j.o)
 			if j.o.Cover {
 				t0 := time.Now()
-				stt, out := runLight(q, dir, 5, false)
+				stt, out := runLight(q, dir, 2, false)
 				j.o.Result = &SolverResult{Status: stt, Solver: "z3-new(light)", Millis: time.Since(t0).Milliseconds(), Output: firstLine(out)}
 				return
 			}
